@@ -20,7 +20,7 @@ PROP = "C13"
 ENGINE = "xfrsim"
 LEVEL = "exploration"
 TIERS = {
-    "quick": {"runs": 80000, "budget_s": 75},
+    "quick": {"runs": 120000, "budget_s": 75},
     "thorough": {"runs": 1000000, "budget_s": 1500},
 }
 DET_EVERY = 50
@@ -233,6 +233,15 @@ def gen_case(seed, tier):
     else:
         cuts = sorted(set(rng.randrange(1, L) for _ in range(rng.choice([1, 2, 4])))) if L > 1 else []
     fault = rng.choice(FAULTS)
+    fpos = rng.randrange(0, max(1, L))
+    if fault == "dup" and style == "ixfr" and L > 3 and stream[2][1] != "SOA" and rng.random() < 0.5:
+        # template: a deletion record sent twice, both copies at the head of the second message (no SOA
+        # before them in that message)
+        ndel = 0
+        while 2 + ndel < L and stream[2 + ndel][1] != "SOA":
+            ndel += 1
+        fpos = 2 + rng.randrange(ndel)
+        cuts = [2]
     case = {
         "prop": PROP,
         "seed": seed,
@@ -242,7 +251,7 @@ def gen_case(seed, tier):
         "style": style,
         "stream": [list(r) for r in stream],
         "cuts": cuts,
-        "fault": {"k": fault, "pos": rng.randrange(0, max(1, L)), "arg": rng.randrange(1000)},
+        "fault": {"k": fault, "pos": fpos, "arg": rng.randrange(1000)},
         "kind": rng.choice(Z.KINDS),
         "relativize": rng.random() < 0.5,
         "with_question": rng.random() < 0.7,
